@@ -390,3 +390,57 @@ def judge_targets(ref, params, df, targets, valid):
             i0 = int(np.nonzero(bad)[0][0])
             viol.append({"key": "target_mismatch", "what": f"target column {tg}: {int(bad.sum())} rows differ from the model function at the row (row {i0}: got {got[i0]!r} expected {exp[i0]!r})"})
     return viol, n
+
+
+# --------------------------------------------------------------------------------------
+# convenience: one real simulate() call
+# --------------------------------------------------------------------------------------
+def simulate_once(fsim, params, init, vf=None, seed=0, targets=None, leaf="float"):
+    import jax.numpy as jnp
+
+    kw = {}
+    if vf is not None:
+        kw["vf_arr_list"] = [jnp.asarray(a) for a in vf]
+    if targets is not None:
+        kw["additional_targets"] = list(targets)
+    return fsim(dsl.lcm_params(params, leaf=leaf), initial_states=pipeline.jnp_states(init), seed=seed, **kw)
+
+
+def row_specific_shocks(rng, ref, params):
+    """Replace every transition array by one whose rows have small, row-specific supports
+    (1-2 labels), so that a draw from the wrong row is outside the support w.p. >= 1/2."""
+    out = dict(params)
+    sh = {}
+    for name in ref.stoch:
+        s = name[len("next_"):]
+        shape = np.asarray(params["shocks"][s]).shape
+        n = shape[-1]
+        P = np.zeros(shape)
+        it = np.ndindex(*shape[:-1])
+        for j, idx in enumerate(it):
+            k = 1 if (n == 2 or rng.random() < 0.5) else 2
+            labs = rng.permutation(n)[:k]
+            w = rng.random(k) + 0.2
+            P[idx + (slice(None),)][labs] = w / w.sum()
+        sh[s] = P.tolist()
+    out["shocks"] = sh
+    return out
+
+
+def frames_equal(a, b, tol=1e-12):
+    """Discrete columns exact, float columns to tol; returns list of differing columns."""
+    bad = []
+    if list(a.index) != list(b.index) or sorted(a.columns) != sorted(b.columns):
+        return ["__structure__"]
+    for c in a.columns:
+        x, y = np.asarray(a[c].values), np.asarray(b[c].values)
+        if np.issubdtype(x.dtype, np.floating) or np.issubdtype(y.dtype, np.floating):
+            x = x.astype(float)
+            y = y.astype(float)
+            with np.errstate(all="ignore"):
+                ok = (np.abs(x - y) <= tol * (1 + np.abs(y))) | (x == y) | (np.isnan(x) & np.isnan(y))
+            if not ok.all():
+                bad.append(c)
+        elif not np.array_equal(x, y):
+            bad.append(c)
+    return bad
